@@ -160,6 +160,39 @@ def run(seed=0, tier="quick", aimed=None):
     finally:
         numba.set_num_threads(nmax)
     samples.append({"oracle": "c15_communicator_thread_sweep", **comm_sweep})
+    # ---- (c'') the stable time step (a grid-wide reduction) for num_threads = 1 ... 5 on grids whose cell count is not a multiple of the
+    #           thread count, with the velocity maximum in the last cells of the flattened array, in the first ones, and spread out
+    import sopht.simulator as sps
+
+    for ci, (dim, cls) in enumerate(((2, "passive"), (2, "ns"), (3, "passive"), (3, "ns"))):
+        rr = impl.rng(seed, "c15dt", ci)
+        shape = (9, 7) if dim == 2 else (5, 7, 3)
+        for pattern in ("last_cell", "first_cell", "random"):
+            vel = np.zeros((dim,) + shape)
+            if pattern == "last_cell":
+                vel[(slice(None),) + tuple(n - 1 for n in shape)] = rr.uniform(1, 3, size=dim)
+            elif pattern == "first_cell":
+                vel[(slice(None),) + (0,) * dim] = rr.uniform(1, 3, size=dim)
+            else:
+                vel[...] = rr.normal(size=vel.shape)
+            dts = {}
+            for nt in (1, 2, 3, 4, 5):
+                with warnings.catch_warnings():
+                    warnings.simplefilter("ignore")
+                    if cls == "passive":
+                        sim = sps.PassiveTransportFlowSimulator(kinematic_viscosity=1e-4, grid_dim=dim, grid_size=shape, x_range=1.0, real_t=np.float64, num_threads=nt)
+                    elif dim == 2:
+                        sim = sps.UnboundedNavierStokesFlowSimulator2D(grid_size=shape, x_range=1.0, kinematic_viscosity=1e-4, real_t=np.float64, num_threads=nt)
+                    else:
+                        sim = sps.UnboundedNavierStokesFlowSimulator3D(grid_size=shape, x_range=1.0, kinematic_viscosity=1e-4, real_t=np.float64, num_threads=nt)
+                    sim.velocity_field[...] = vel
+                    dts[nt] = float(sim.compute_stable_timestep())
+                cases += 1
+            if len(set(dts.values())) != 1:
+                return {"ok": False, "cases": cases, "samples": samples, "failing_input": {
+                    "oracle": "c15_stable_timestep_thread_sweep", "simulator": f"{cls}{dim}d", "grid": list(shape), "velocity": pattern,
+                    "dt_by_num_threads": dts, "what": "compute_stable_timestep depends on num_threads"}}
+    samples.append({"oracle": "c15_stable_timestep_thread_sweep", "num_threads": [1, 2, 3, 4, 5]})
     # ---- (d) thread sweep of the Poisson solvers on the real implementation (run LAST: a listed known finding must not
     #          mask another violation).  The stencil kernels are executed here by a numpy interpreter (no OpenMP back end in this
     #          sandbox), so the only threaded component is pyFFTW; a difference is attributed to its call site by comparing the
